@@ -1,5 +1,6 @@
 //! rvh — the verification harness for al8n/rarena. Drives the real code and logs; never judges.
 mod common;
+mod conc;
 mod seq;
 
 fn main() {
@@ -10,6 +11,7 @@ fn main() {
   }
   match args[1].as_str() {
     "seq" => seq::run(&args[2..]),
+    "conc" => conc::run(&args[2..]),
     other => {
       eprintln!("unknown subcommand {other}");
       std::process::exit(2);
